@@ -23,6 +23,9 @@ def run(tier, rng, C):
         tw = G.Inv()
         tw.__dict__.update(copy.deepcopy(inv.__dict__))
         miss = rng.choice(['zz.missing', 'nope', 'd1.gone'])
+        if rng.random() < 0.25:
+            miss = nname               # a missing class named like a node of the inventory
+            tw.universe.add(miss)
         holders = sorted(tw.classes) + [node]
         hs = rng.sample(holders, min(len(holders), rng.choice([1, 1, 2, 3])))   # the same missing class from several places
         if rng.random() < 0.4 and node not in hs:
